@@ -248,8 +248,25 @@ theorem lift_error_aux (f : LeafFn) : ∀ n, ∀ (v : Val), sizeOf v ≤ n → v
 
 /-! ### companions without a matching container are passed whole -/
 
-theorem itemByI_no_match (i n : Nat) : ∀ m, ∀ (c : Val), sizeOf c ≤ m →
-    (∀ q cs, (c.at q = some (.list cs) ∨ c.at q = some (.tuple cs)) → cs.length ≠ n) →
+/-- a path of index steps only: it can only run through lists and tuples (what `_item_by_i` descends through) -/
+def IdxPath (q : Path) : Prop := ∀ s ∈ q, ∃ i, s = Step.idx i
+theorem IdxPath.nil : IdxPath [] := by intro s hs; cases hs
+theorem IdxPath.cons (j : Nat) {q : Path} (h : IdxPath q) : IdxPath (.idx j :: q) := by
+  intro s hs
+  rcases List.mem_cons.1 hs with rfl | hs
+  · exact ⟨j, rfl⟩
+  · exact h s hs
+/-- a path of key steps only: it can only run through dict values (what `_item_by_key` descends through) -/
+def KeyPath (q : Path) : Prop := ∀ s ∈ q, ∃ k, s = Step.key k
+theorem KeyPath.nil : KeyPath [] := by intro s hs; cases hs
+theorem KeyPath.cons (k : String) {q : Path} (h : KeyPath q) : KeyPath (.key k :: q) := by
+  intro s hs
+  rcases List.mem_cons.1 hs with rfl | hs
+  · exact ⟨k, rfl⟩
+  · exact h s hs
+
+theorem itemByI_no_match_seq (i n : Nat) : ∀ m, ∀ (c : Val), sizeOf c ≤ m →
+    (∀ q cs, IdxPath q → (c.at q = some (.list cs) ∨ c.at q = some (.tuple cs)) → cs.length ≠ n) →
     itemByI i n c = c := by
   intro m
   induction m with
@@ -257,7 +274,7 @@ theorem itemByI_no_match (i n : Nat) : ∀ m, ∀ (c : Val), sizeOf c ≤ m →
   | succ m ih =>
     intro c hs h
     have helem : ∀ (cs : List Val), (∀ x ∈ cs, sizeOf x ≤ m) →
-        (∀ (j : Nat) (x : Val), cs[j]? = some x → ∀ (q : Path) (ds : List Val),
+        (∀ (j : Nat) (x : Val), cs[j]? = some x → ∀ (q : Path) (ds : List Val), IdxPath q →
           (x.at q = some (.list ds) ∨ x.at q = some (.tuple ds)) → ds.length ≠ n) →
         cs.map (itemByI i n) = cs := by
       intro cs hsz hq
@@ -270,29 +287,34 @@ theorem itemByI_no_match (i n : Nat) : ∀ m, ∀ (c : Val), sizeOf c ≤ m →
     | cell a => simp [itemByI]
     | dict kvs => simp [itemByI]
     | list cs =>
-      have hlen : cs.length ≠ n := h [] cs (Or.inl (by simp [Val.at]))
+      have hlen : cs.length ≠ n := h [] cs IdxPath.nil (Or.inl (by simp [Val.at]))
       simp only [itemByI, hlen, ↓reduceIte, itemByIList_eq_map]
       rw [helem cs]
       · intro x hx
         have := List.sizeOf_lt_of_mem hx
         simp at hs; omega
-      · intro j x hj q ds hd
-        apply h (.idx j :: q) ds
+      · intro j x hj q ds hq hd
+        apply h (.idx j :: q) ds (IdxPath.cons j hq)
         simpa [Val.at, Val.child, hj] using hd
     | tuple cs =>
-      have hlen : cs.length ≠ n := h [] cs (Or.inr (by simp [Val.at]))
+      have hlen : cs.length ≠ n := h [] cs IdxPath.nil (Or.inr (by simp [Val.at]))
       simp only [itemByI, hlen, ↓reduceIte, itemByIList_eq_map]
       rw [helem cs]
       · intro x hx
         have := List.sizeOf_lt_of_mem hx
         simp at hs; omega
-      · intro j x hj q ds hd
-        apply h (.idx j :: q) ds
+      · intro j x hj q ds hq hd
+        apply h (.idx j :: q) ds (IdxPath.cons j hq)
         simpa [Val.at, Val.child, hj] using hd
 
 
-theorem itemByKey_no_match (k : String) (keys : List String) : ∀ m, ∀ (c : Val), sizeOf c ≤ m → c.KeysNodup →
-    (∀ q cs, c.at q = some (.dict cs) → sortStr (keysOf cs) ≠ keys) →
+theorem itemByI_no_match (i n : Nat) (m : Nat) (c : Val) (hs : sizeOf c ≤ m)
+    (h : ∀ q cs, (c.at q = some (.list cs) ∨ c.at q = some (.tuple cs)) → cs.length ≠ n) :
+    itemByI i n c = c :=
+  itemByI_no_match_seq i n m c hs (fun q cs _ hq => h q cs hq)
+
+theorem itemByKey_no_match_dict (k : String) (keys : List String) : ∀ m, ∀ (c : Val), sizeOf c ≤ m → c.KeysNodup →
+    (∀ q cs, KeyPath q → c.at q = some (.dict cs) → sortStr (keysOf cs) ≠ keys) →
     itemByKey k keys c = c := by
   intro m
   induction m with
@@ -304,7 +326,7 @@ theorem itemByKey_no_match (k : String) (keys : List String) : ∀ m, ∀ (c : V
     | list cs => simp [itemByKey]
     | tuple cs => simp [itemByKey]
     | dict kvs =>
-      have hk : sortStr (keysOf kvs) ≠ keys := h [] kvs (by simp [Val.at])
+      have hk : sortStr (keysOf kvs) ≠ keys := h [] kvs KeyPath.nil (by simp [Val.at])
       have hnd : (keysOf kvs).Nodup := hn [] kvs (by simp [Val.at])
       simp only [itemByKey, hk, ↓reduceIte, itemByKeyKVs_eq_map]
       have : ∀ kv ∈ kvs, (kv.1, itemByKey k keys kv.2) = id kv := by
@@ -312,10 +334,15 @@ theorem itemByKey_no_match (k : String) (keys : List String) : ∀ m, ∀ (c : V
         have hl := lookup_of_mem_nodup kvs kv hkv hnd
         have hc : (Val.dict kvs).child (.key kv.1) = some kv.2 := by simpa [Val.child] using hl
         have := ih kv.2 (by have := sizeOf_kv_lt hkv; simp at hs; omega) (KeysNodup_child hn hc)
-          (fun q cs hq => h (.key kv.1 :: q) cs (by simpa [Val.at, Val.child, hl] using hq))
+          (fun q cs hkq hq => h (.key kv.1 :: q) cs (KeyPath.cons kv.1 hkq) (by simpa [Val.at, Val.child, hl] using hq))
         simp [this]
       simp only [mapKW]
       rw [List.map_congr_left this, List.map_id]
+
+theorem itemByKey_no_match (k : String) (keys : List String) (m : Nat) (c : Val) (hs : sizeOf c ≤ m) (hn : c.KeysNodup)
+    (h : ∀ q cs, c.at q = some (.dict cs) → sortStr (keysOf cs) ≠ keys) :
+    itemByKey k keys c = c :=
+  itemByKey_no_match_dict k keys m c hs hn (fun q cs _ hq => h q cs hq)
 
 /-! ### `sorted(keys)` keeps the keys -/
 
@@ -438,5 +465,49 @@ theorem pos_kw_aux (f : LeafFn) (k : Nat) (name : String) (hname : name ≠ "axi
       have := sizeOf_kv_lt hx
       simp at hs
       exact ih kv.2 (by omega)
+
+
+theorem insertStr_perm (k : String) : ∀ l, (insertStr k l).Perm (k :: l)
+  | [] => by simp [insertStr]
+  | h :: t => by
+      simp only [insertStr]
+      split
+      · exact List.Perm.refl _
+      · exact ((insertStr_perm k t).cons h).trans (List.Perm.swap k h t)
+
+theorem sortStr_perm : ∀ l, (sortStr l).Perm l
+  | [] => by simp [sortStr]
+  | h :: t => by
+      simp only [sortStr]
+      exact (insertStr_perm h (sortStr t)).trans ((sortStr_perm t).cons h)
+
+/-- the code's test `sorted(value.keys()) == keys` succeeds only for the same keys (as a multiset; python keys are distinct: the same SET) -/
+theorem perm_of_sortStr_eq (a b : List String) (h : sortStr a = sortStr b) : a.Perm b :=
+  (sortStr_perm a).symm.trans (h ▸ sortStr_perm b)
+
+theorem insertStr_comm (x y : String) : ∀ l, insertStr x (insertStr y l) = insertStr y (insertStr x l)
+  | [] => by
+      simp only [insertStr]
+      by_cases h1 : x ≤ y <;> by_cases h2 : y ≤ x <;> simp only [insertStr, h1, h2, if_true, if_false]
+      · rw [String.le_antisymm h1 h2]
+      · rcases String.le_total x y with h | h <;> contradiction
+  | h :: t => by
+      simp only [insertStr]
+      by_cases hx : x ≤ h <;> by_cases hy : y ≤ h <;> simp only [hx, hy, if_true, if_false, insertStr]
+      · by_cases h1 : x ≤ y <;> by_cases h2 : y ≤ x <;> simp only [h1, h2, hx, hy, if_true, if_false]
+        · rw [String.le_antisymm h1 h2]
+        · rcases String.le_total x y with h | h <;> contradiction
+      · have h2 : ¬ y ≤ x := fun h2 => hy (String.le_trans h2 hx)
+        simp only [h2, hy, if_false]
+      · have h1 : ¬ x ≤ y := fun h1 => hx (String.le_trans h1 hy)
+        simp only [h1, hx, if_false]
+      · rw [insertStr_comm x y t]
+
+theorem sortStr_eq_of_perm {a b : List String} (h : a.Perm b) : sortStr a = sortStr b := by
+  induction h with
+  | nil => rfl
+  | cons x _ ih => simp only [sortStr, ih]
+  | swap x y l => simp only [sortStr]; exact insertStr_comm y x (sortStr l)
+  | trans _ _ ih1 ih2 => exact ih1.trans ih2
 
 end Pyg
